@@ -477,6 +477,17 @@ pub fn run(run: &mut Run) {
                 }
             }
         }
+        // vanishing levels: the two Wilson ranks coincide (a degenerate interval of one order statistic) or nearly so
+        for n in 4usize..=40 {
+            for (qi, q) in [0.5, 0.25, 0.75, 0.4].into_iter().enumerate() {
+                for (li, l) in [1e-300, 1e-17, 1e-15, 1e-9, 1e-3].into_iter().enumerate() {
+                    for kind in 0u8..3 {
+                        let codes: Vec<u8> = (0..n).map(|i| ((i * 11 + qi) % 13) as u8).collect();
+                        cases.push(ElemCase { ty: TYPES[(n + qi + li) % 5].into(), codes, conf: Conf::new(kind, l), q: X(q) });
+                    }
+                }
+            }
+        }
         for c in &cases {
             run.case("elements_tiny", c, elem_case);
         }
@@ -488,7 +499,7 @@ pub fn run(run: &mut Run) {
     run.prop("elements_random", run.tier.pick(40_000, 1_500_000), s, elem_case);
     // larger samples: 200 random permutations of one multiset per size
     let seed = run.seed_for("elements_large", 0);
-    let sizes: Vec<usize> = run.tier.pick(vec![100, 1000, 1025, 2000], vec![100, 500, 1024, 1025, 1500, 3000, 4096, 5000, 20000, 100000]);
+    let sizes: Vec<usize> = run.tier.pick(vec![100, 1000, 1025, 2000, 10_001, 12_000, 30_000], vec![100, 500, 1024, 1025, 1500, 3000, 4096, 5000, 20000, 100000]);
     let sizes_ref = &sizes;
     run.par(sizes.len(), |si, obs| {
         let n = sizes_ref[si];
